@@ -285,6 +285,17 @@ theorem segArc_accept (startRadius : F) (q : P2 F) (θ β len : F) (s : SegState
     simp only [lit_0, lit_1]
     rfl
 
+/-- a rejected circular piece stores `+∞` in the reference depth too -/
+theorem segArc_reject_depthRef (T : Transc F) (startRadius : F) (c : P2 F) (θ angBot len : F) (s : SegState F)
+    (h : ¬ @arcAccept F (fieldScalar T) (θ - angBot)
+      (@arcCpa F (fieldScalar T) c (@arcCenter F (fieldScalar T) s.beginSeg θ (θ - angBot) (@arcRadius F (fieldScalar T) len (θ - angBot)))
+        (@arcRadius F (fieldScalar T) len (θ - angBot)) (θ - angBot)) θ angBot) :
+    (@segArc F (fieldScalar T) startRadius c θ angBot len s).newDepthRef = T.inf := by
+  unfold segArc
+  dsimp only
+  rw [if_neg h]
+  rfl
+
 theorem arcRadius_neg (len diff : F) (hd : diff < 0) (hlen : 0 < len) : @arcRadius F (fieldScalar T) len diff = len / (-diff) := by
   rw [arcRadius_field, abs_div, abs_of_pos hlen, abs_of_neg hd]
 theorem arcRadius_pos (len diff : F) (hd : 0 < diff) (hlen : 0 < len) : @arcRadius F (fieldScalar T) len diff = len / diff := by
@@ -305,7 +316,7 @@ theorem segArc_incr (L : ArcLaws T) (startRadius θ β len : F) (s : SegState F)
     g.endSeg = ⟨c.x + r * T.sin β, c.y + r * T.cos β⟩ ∧
     (acc ↔ ((θ ≤ ψ ∨ |ψ - θ| < 1 / 10 ^ 12) ∧ (ψ ≤ β ∨ |ψ - β| < 1 / 10 ^ 12))) ∧
     (acc → g.newAlong = r * (ψ - θ) ∧ g.newDistance = r - ρ ∧ g.newDepthRef = startRadius - (c.y + r * T.cos ψ)) ∧
-    (¬ acc → g.newAlong = s.newAlong ∧ g.newDistance = s.newDistance) := by
+    (¬ acc → g.newAlong = T.inf ∧ g.newDistance = T.inf ∧ g.newDepthRef = T.inf) := by
   intro r c q g acc
   have hr : @arcRadius F (fieldScalar T) len (θ - β) = r := by
     rw [arcRadius_neg (T := T) len (θ - β) hd hlen]; show len / (-(θ - β)) = len / (β - θ); rw [neg_sub]
@@ -345,7 +356,7 @@ theorem segArc_incr (L : ArcLaws T) (startRadius θ β len : F) (s : SegState F)
         (T.cos ψ * T.cos θ - T.sin ψ * T.sin θ) * (s.beginSeg.y - (s.beginSeg.y - r * T.cos θ)) + c.y) = _
       linear_combination (-(r * T.cos ψ)) * L.sq θ
   · obtain ⟨u1, u2⟩ := (segArc_newDistance T startRadius q θ β len s).2 ha
-    exact ⟨u2, u1⟩
+    exact ⟨u2, u1, segArc_reject_depthRef T startRadius q θ β len s ha⟩
 
 /-- **the circular piece, dip decreasing downwards** (`θ > β`): everything `segArc` does for the point `centre − ρ(sin ψ, cos ψ)` -/
 theorem segArc_decr (L : ArcLaws T) (startRadius θ β len : F) (s : SegState F) (hθ : DipOK T θ) (hd : 0 < θ - β) (hlen : 0 < len)
@@ -361,7 +372,7 @@ theorem segArc_decr (L : ArcLaws T) (startRadius θ β len : F) (s : SegState F)
     g.endSeg = ⟨c.x - r * T.sin β, c.y - r * T.cos β⟩ ∧
     (acc ↔ ((ψ ≤ θ ∨ |ψ - θ| < 1 / 10 ^ 12) ∧ (β ≤ ψ ∨ |ψ - β| < 1 / 10 ^ 12))) ∧
     (acc → g.newAlong = r * (θ - ψ) ∧ g.newDistance = ρ - r ∧ g.newDepthRef = startRadius - (c.y - r * T.cos ψ)) ∧
-    (¬ acc → g.newAlong = s.newAlong ∧ g.newDistance = s.newDistance) := by
+    (¬ acc → g.newAlong = T.inf ∧ g.newDistance = T.inf ∧ g.newDepthRef = T.inf) := by
   intro r c q g acc
   have hnd : ¬ θ - β < 0 := not_lt.mpr hd.le
   have hr : @arcRadius F (fieldScalar T) len (θ - β) = r := arcRadius_pos (T := T) len (θ - β) hd hlen
@@ -401,7 +412,7 @@ theorem segArc_decr (L : ArcLaws T) (startRadius θ β len : F) (s : SegState F)
         (T.cos ψ * T.cos θ - T.sin ψ * T.sin θ) * (s.beginSeg.y - (s.beginSeg.y + r * T.cos θ)) + c.y) = _
       linear_combination (r * T.cos ψ) * L.sq θ
   · obtain ⟨u1, u2⟩ := (segArc_newDistance T startRadius q θ β len s).2 ha
-    exact ⟨u2, u1⟩
+    exact ⟨u2, u1, segArc_reject_depthRef T startRadius q θ β len s ha⟩
 
 end arc
 
